@@ -32,10 +32,10 @@ from egsim.props.common import deep_tier
 from egsim.seams import InjectedFault
 from edgegraph.structure import singleton
 
-CLASS_NAMES = ["A", "A1", "B", "C", "D", "E", "F", "G", "G1", "H", "K"]
+CLASS_NAMES = ["A", "A1", "B", "C", "D", "E", "F", "G", "G1", "H", "K", "O", "V"]
 # classes whose metaclass is, or derives from, one generated metaclass object
 # share that object's registry (keyed by class)
-FAMILY = {"A": "a", "A1": "a", "B": "bc", "C": "bc", "D": "d", "E": "e", "F": "f", "G": "g", "G1": "g", "H": "g", "K": "k"}
+FAMILY = {"A": "a", "A1": "a", "B": "bc", "C": "bc", "D": "d", "E": "e", "F": "f", "G": "g", "G1": "g", "H": "g", "K": "k", "O": "o", "V": "v"}
 
 # argument pool, chosen to collide: -1/-2 (equal hashes, unequal values),
 # 1 / 1.0 / True (equal values), tuples built afresh on every use, strings
@@ -78,6 +78,11 @@ class FieldKey(tuple):
 
     def __call__(self, args, kwargs):
         return (args[0] if args else None,) + tuple(repr(kwargs.get(name)) for name in self)
+
+
+def hash_ordered(args, kwargs):
+    """A custom hash function for which the order the keywords were written in matters."""
+    return (len(args), tuple((k, repr(v)) for k, v in kwargs.items()))
 
 
 def make_classes(hook=None):
@@ -133,7 +138,13 @@ def make_classes(hook=None):
     # a custom hash function that is a falsy callable object
     m_k = singleton.semi_singleton_metaclass(FieldKey())
     K = m_k("K", (object,), body("K"))
-    return {"A": A, "A1": A1, "B": B, "C": Cc, "D": D, "E": E, "F": F, "G": G, "G1": G1, "H": H, "K": K}
+    # a custom hash function that is sensitive to the order of the keywords
+    m_o = singleton.semi_singleton_metaclass(hash_ordered)
+    Oc = m_o("O", (object,), body("O"))
+    # instances that all compare equal (value equality, one stable hash)
+    m_v = singleton.semi_singleton_metaclass()
+    Vc = m_v("V", (object,), body("V", __eq__=lambda self, other: type(other) is type(self), __hash__=lambda self: 7))
+    return {"A": A, "A1": A1, "B": B, "C": Cc, "D": D, "E": E, "F": F, "G": G, "G1": G1, "H": H, "K": K, "O": Oc, "V": Vc}
 
 
 def model_key(cls, args, kwargs):
@@ -143,6 +154,8 @@ def model_key(cls, args, kwargs):
         return ("kw", hash_kwnames(args, kwargs))
     if cls == "K":
         return ("first", hash_first(args, kwargs))
+    if cls == "O":
+        return ("ordered", hash_ordered(args, kwargs))
     return (args, json.dumps(kwargs, sort_keys=True))
 
 
@@ -205,7 +218,7 @@ class C17(engine.Property):
     rule = (
         "one evaluation = one seeded history of constructions, add_mapping, drop, check, "
         "get_all (also as a suspended generator resumed after work on other classes) and clear "
-        "over eleven related classes (own metaclass, subclass, shared metaclass object, two custom "
+        "over thirteen related classes (own metaclass, subclass, shared metaclass object, two custom "
         "hash functions (one more given as a falsy callable object), falsy instances, a metaclass derived from a generated one with a "
         "subclass and a sibling on the base metaclass) with colliding argument values, "
         "checked against a per-class key->instance model after every step, every live key "
@@ -242,6 +255,8 @@ class C17(engine.Property):
         "keyword-value-equal-but-other-type",
         "dict-valued-keyword-in-other-insertion-order",
         "falsy-callable-object-as-hash-function",
+        "order-sensitive-hash-function-with-several-keywords",
+        "value-equal-instances-under-different-keys",
         "derived-metaclass-class-cleared-then-constructed",
         "suspended-get_all-resumed-after-work-on-other-classes",
     ]
@@ -286,7 +301,7 @@ class C17(engine.Property):
         for c in cfg["classes"]:
             live.extend(st.keyargs[c].values())
         with_kw = [x for x in live if x[1]]
-        if with_kw and cls not in ("D", "E", "K") and rng.random() < 0.06:
+        if with_kw and cls not in ("D", "E", "K", "O") and rng.random() < 0.06:
             # positional arguments shaped like the key of another call:
             # (its positionals, the canonical text of its keywords)
             a, kw = rng.choice(with_kw)
@@ -328,9 +343,9 @@ class C17(engine.Property):
             return args, kwargs
         n = rng.randint(0, cfg["max_args"])
         args = [ARG_POOL[rng.choice(cfg["pool"])] for _ in range(n)]
-        if allow_bad and cls not in ("D", "E", "K") and rng.random() < cfg.get("p_unkeyable", 0.0):
+        if allow_bad and cls not in ("D", "E", "K", "O") and rng.random() < cfg.get("p_unkeyable", 0.0):
             bad = {"unhashable": rng.choice(["list", "set"])}
-            if rng.random() < 0.6 or cls in ("D", "E", "K"):
+            if rng.random() < 0.6 or cls in ("D", "E", "K", "O"):
                 args = args + [bad]
             else:
                 return args, [["x", {"unhashable": "set"}]]
@@ -338,7 +353,7 @@ class C17(engine.Property):
         if rng.random() < cfg["p_kwargs"]:
             names = rng.sample(KW_NAMES, rng.randint(1, 3))
             kwargs = [[nm, ARG_POOL[rng.choice(cfg["pool"])]] for nm in names]
-            if cls not in ("D", "E", "K") and rng.random() < 0.2:
+            if cls not in ("D", "E", "K", "O") and rng.random() < 0.2:
                 entries = [[k, rng.choice([1, 2, "v"])] for k in rng.sample(["CC", "LD", "AR", "x"], rng.randint(2, 3))]
                 kwargs[0][1] = {"dict": entries}
         return args, kwargs
@@ -717,13 +732,17 @@ class C17(engine.Property):
             s["probe:falsy-instance-class-used"] += 1
         if cls == "K":
             s["probe:falsy-callable-object-as-hash-function"] += 1
+        if cls == "O" and len(kwargs) >= 2:
+            s["probe:order-sensitive-hash-function-with-several-keywords"] += 1
+        if cls == "V" and st.model["V"]:
+            s["probe:value-equal-instances-under-different-keys"] += 1
         if cls in ("B", "C") and st.model["B" if cls == "C" else "C"]:
             s["probe:shared-metaclass-both-classes-used"] += 1
         for c in st.cfg["classes"]:
             if c != cls and key in st.model[c]:
                 s["probe:same-arguments-on-two-classes"] += 1
                 break
-        if cls not in ("D", "E", "K"):
+        if cls not in ("D", "E", "K", "O"):
             try:
                 hk = hash(key)
             except TypeError:
